@@ -30,6 +30,8 @@ func cmdRun(args []string) int {
 	native := fs.Bool("native", false, "run path samples natively and compare observations")
 	qto := fs.Duration("qto", 10*time.Second, "solver query timeout")
 	jsonOut := fs.String("json", "", "write result JSON here")
+	sleep := fs.Bool("sleep", true, "sleep-set reduction")
+	outcomes := fs.Bool("outcomes", false, "print the set of distinct observation tuples")
 	cpuprof := fs.String("cpuprofile", "", "write CPU profile")
 	fs.Parse(args)
 
@@ -40,7 +42,7 @@ func cmdRun(args []string) int {
 	}
 	cfg := interp.Config{Workers: *workers, ConcretizeCap: *ccap, PreemptionBound: *pb, MaxSteps: *steps,
 		MaxConcreteAlloc: 1 << 22, MaxPaths: *maxPaths, RaceDetect: *race, QueryTimeout: *qto, Verbose: *verbose,
-		Trace: *trace, KeepSamples: 2000}
+		Trace: *trace, KeepSamples: 2000, SleepSets: *sleep}
 	e, s, err := loadEngine(*verif, *repo, []string{*sub}, cfg)
 	if err != nil {
 		fmt.Fprintln(os.Stderr, "load:", err)
@@ -62,6 +64,15 @@ func cmdRun(args []string) int {
 		}
 		res := e.Explore(entry)
 		printResult(res)
+		if *outcomes {
+			set := res.Outcomes
+			var keys []string
+			for k := range set {
+				keys = append(keys, k)
+			}
+			sort.Strings(keys)
+			fmt.Printf("   outcomes(%d): %s\n", len(keys), strings.Join(keys, " | "))
+		}
 		if *jsonOut != "" {
 			b, _ := json.MarshalIndent(res, "", " ")
 			os.WriteFile(*jsonOut, b, 0644)
